@@ -122,7 +122,12 @@ fn gen_m2(ch: &mut Ch, thorough: bool) -> Option<Case> {
     if derived.len() == 4 && combo.is_plain() {
         return None;
     }
-    let ts = container_spec(container, ctx, FieldSpec::cfg(combo, form_for(ctx)), KeyStyle::Distinct);
+    // attribute entry also with every trait in its own stacked `#[derive_ex(..)]` attribute
+    let stacked = derived.len() >= 2 && entry == Entry::Attr && ch.pick(2) == 1;
+    let mut ts = container_spec(container, ctx, FieldSpec::cfg(combo, form_for(ctx)), KeyStyle::Distinct);
+    if stacked {
+        ts.shared_arg = Some(STACKED);
+    }
     Some(Case { gen: "m2", vector: ch.vector(), ts, derived, entry })
 }
 
